@@ -1301,6 +1301,22 @@ def _np_concatenate(ex, args, kwargs, node):
     return r
 
 
+@model("numpy.append")
+def _np_append(ex, args, kwargs, node):
+    # np.append(a, b) without axis = concatenate((ravel(a), ravel(b))); for 1-D operands (and scalars) the ravel is a no-op
+    if "axis" in kwargs or len(args) != 2:
+        raise Undecided("np.append with an axis", node)
+    parts = []
+    for x in args:
+        v = _arr(ex, x, node)
+        if v.shape is not None and len(v.shape) == 0:
+            v = Num(v.nf, (NF.const(1),), v.dtype, "ndarray")
+        elif v.shape is None or len(v.shape) != 1:
+            raise Undecided("np.append of operands that are not 1-D", node)
+        parts.append(v)
+    return _np_concatenate(ex, [TupleV(parts)], {}, node)
+
+
 def _elementwise(fn, name):
     def f(ex, args, kwargs, node):
         v = args[0]
